@@ -111,6 +111,11 @@ def gen(run):
         [P.F(), box(b"mdat", body, form="eof"), box(b"mdat", body, form="eof"), box(b"mdat", body, form="eof"), m1, box(b"free", b"")],
         [P.F(), box(b"mdat", body, form="eof"), box(b"mdat", body), box(b"mdat", body, form="eof"), m1],
     ]
+    # SIZED mdat boxes whose declared size is below their own header length (32-bit sizes 2..7, 64-bit sizes 0..15): not until-EOF, so
+    # the option must not touch them - the verdict (InvalidInput) is the same for every cumulative size, the true size included
+    for bad in ([be32(k) + b"mdat" + body for k in (2, 3, 7)] + [be32(1) + b"mdat" + be64(v) + body for v in (0, 1, 8, 15)]):
+        shapes.append([P.F(), m1, bad])
+        shapes.append([P.F(), bad, m1])
     for sh in shapes:
         data = b"".join(sh)
         for rd in ("strict", "cursor"):
